@@ -2519,7 +2519,8 @@ class ProvDocument(ProvBundle):
             stream = destination
             serializer.serialize(stream, **args)
         else:
-            location = os.fspath(destination)
+            # str, bytes or os.PathLike, as open() accepts them
+            location = os.fsdecode(destination)
             scheme, netloc, path, params, _query, fragment = urlparse(location)
             if netloc != "":
                 print(
